@@ -299,7 +299,9 @@ def signature(obj: tp.Callable[..., tp.Any] | type[tp.Any]) -> inspect.Signature
 
     Also supports TypedDict subclasses
     """
-    if inspect.isclass(obj) or isgeneric(obj):
+    # (A class, or an alias of one. Never ask how the object prints: the text of a
+    #   bound method is the text of its instance.)
+    if inspect.isclass(obj) or inspect.isclass(tp.get_origin(obj)):
         if istypeddict(obj):
             return typed_dict_signature(obj)
         if istupletype(obj) and not isnamedtuple(obj):
